@@ -210,6 +210,41 @@ fn fault_point(cfg: &FaultCfg, st: &mut FaultState, call: usize) -> Fault {
 
 pub const HORIZON_MSG: &str = "VERIF-HORIZON";
 
+thread_local! {
+    /// default chunk size of the pipes in this execution (0 = as much as fits). The alternatives at a
+    /// chunk choice point are always ALL sizes 1..=max; the policy only says which one is "choice 0",
+    /// i.e. what an execution without deviations looks like (a peer that trickles bytes one at a time
+    /// is as ordinary as one that moves as much as fits).
+    pub static CHUNK_POLICY: std::cell::Cell<usize> = const { std::cell::Cell::new(0) };
+}
+
+/// chunk size for a pipe call that may move 1..=max bytes
+pub fn chunk_point(max: usize) -> usize {
+    let c = point(max);
+    size_for_choice(max, c)
+}
+
+/// the size that choice `c` (0-based, `c < max`) stands for under the current policy
+pub fn size_for_choice(max: usize, c: usize) -> usize {
+    let pol = CHUNK_POLICY.with(|c| c.get());
+    let d = if pol == 0 { max } else { pol.min(max) };
+    if c == 0 {
+        return d;
+    }
+    // the other sizes in descending order, skipping the default
+    let mut k = max;
+    let mut i = 0;
+    loop {
+        if k != d {
+            i += 1;
+            if i == c {
+                return k;
+            }
+        }
+        k -= 1;
+    }
+}
+
 // ------------------------------------------------------------------------------------------
 // blocking pipes
 // ------------------------------------------------------------------------------------------
@@ -246,7 +281,7 @@ impl Write for ScriptWrite {
         if buf.is_empty() {
             return Ok(0);
         }
-        let k = if self.chunking { buf.len() - point(buf.len()) } else { buf.len() };
+        let k = if self.chunking { chunk_point(buf.len()) } else { buf.len() };
         st.bytes.extend_from_slice(&buf[..k]);
         Ok(k)
     }
@@ -293,7 +328,7 @@ impl Read for ScriptRead {
         if max == 0 {
             return Ok(0);
         }
-        let k = if self.chunking { max - point(max) } else { max };
+        let k = if self.chunking { chunk_point(max) } else { max };
         let p = st.pos;
         buf[..k].copy_from_slice(&st.stream[p..p + k]);
         st.pos += k;
@@ -412,7 +447,7 @@ impl AsyncWrite for AWrite {
             cx.waker().wake_by_ref();
             return Poll::Pending;
         }
-        let k = m - c;
+        let k = size_for_choice(m, c);
         p.buf.extend(&data[..k]);
         p.all_written.extend_from_slice(&data[..k]);
         p.accepted_total += k;
@@ -481,7 +516,7 @@ impl AsyncRead for ARead {
             cx.waker().wake_by_ref();
             return Poll::Pending;
         }
-        let k = m - c;
+        let k = size_for_choice(m, c);
         for i in 0..k {
             out[i] = p.buf.pop_front().unwrap();
         }
